@@ -838,7 +838,7 @@ def pow2_facts(t):
 HEAVY = {"pow2_mono", "be_msb", "bytelen_mono", "shr_def", "shr_bound"}     # quadratic multi-patterns / nonlinear bodies
 
 # optional theories: only obligations of contracts that ask for them get these axioms (keeps every other query small)
-GROUPS = {"shift": {"shr_zero", "shr_shr", "shr_cong", "shr_def", "shr_small", "shr_bound", "be_prefix", "imod_range"}}
+GROUPS = {"shift": {"shr_zero", "shr_shr", "shr_cong", "shr_def", "shr_small", "shr_bound", "be_prefix"}}
 _OPTIONAL = set().union(*GROUPS.values())
 
 
